@@ -43,6 +43,7 @@ import (
 	"github.com/cnotch/ipchub/provider/route"
 	_ "github.com/cnotch/ipchub/service/rtsp" // registers the pull stream factory
 	"github.com/cnotch/ipchub/stats"
+	"github.com/cnotch/ipchub/utils/verifhook"
 	"github.com/cnotch/xlog"
 )
 
@@ -120,11 +121,16 @@ type camera struct {
 	sent     int32         // RTP packets written in the play phase
 	playDone chan struct{} // closed when a connection handler returns
 	seqno    uint16
+	conc     bool          // concurrency scenario: every request is answered ok, play = one packet at [kick], close at [gate]
+	kick     chan struct{}
 }
 
 func (c *camera) next() int64 {
 	c.mu.Lock()
 	defer c.mu.Unlock()
+	if c.conc {
+		return kOk
+	}
 	if c.pos >= len(c.script) {
 		return kEOF
 	}
@@ -346,6 +352,28 @@ func (c *camera) rtpPacket() []byte {
 }
 
 func (c *camera) play(conn net.Conn, br *bufio.Reader, closeConn func(bool), drain func()) {
+	if c.conc {
+		select {
+		case <-c.kick:
+		case <-time.After(20 * time.Second):
+		}
+		c.mu.Lock()
+		pkt := c.rtpPacket()
+		c.mu.Unlock()
+		conn.Write(pkt)
+		// a pull client whose stream was replaced goes away by itself; the others stay until the gate opens
+		gone := make(chan struct{})
+		go func() { drain(); close(gone) }()
+		select {
+		case <-c.gate:
+			if tc, ok := conn.(*net.TCPConn); ok {
+				tc.CloseWrite()
+			}
+			<-gone
+		case <-gone:
+		}
+		return
+	}
 	select {
 	case <-c.gate:
 	case <-time.After(20 * time.Second):
@@ -704,6 +732,104 @@ func runCase(c Val) Val {
 	return L(outs...)
 }
 
+// concurrent first requests for one path: case = (n tracks delays)
+// observation = (answers live registered member conns counter goroutines final)
+func concCase(c Val) Val {
+	setup()
+	n := int(c.At(0).Int())
+	delays := c.At(2).List()
+	media.VerifResetRegistry()
+	route.Reset(mem{})
+	cam := newCamera(sdpFor(c.At(1).Int(), 0))
+	cam.conc = true
+	cam.gate = make(chan struct{})
+	cam.kick = make(chan struct{})
+	defer cam.ln.Close()
+	w := &world{cfg: cfgT{creds: 1, routed: true}, cam: cam, path: "/c20/cam", base: stats.RtspConns.GetSample().Active}
+	w.baseFds = socketFds()
+	route.Save(&route.Route{Pattern: w.path, URL: w.routeURL(false), KeepAlive: true})
+	var arrivals int32
+	verifhook.SetPoint(func(name string, id uint32) {
+		if name == "regist.swapped" {
+			k := int(atomic.AddInt32(&arrivals, 1)) - 1
+			if k < len(delays) {
+				time.Sleep(time.Duration(delays[k].Int()) * time.Millisecond)
+			}
+		}
+	})
+	defer verifhook.SetPoint(nil)
+
+	start := make(chan struct{})
+	res := make(chan *media.Stream, n)
+	for i := 0; i < n; i++ {
+		go func() {
+			var s *media.Stream
+			defer func() { recover(); res <- s }()
+			<-start
+			s = media.GetOrCreate(w.path)
+		}()
+	}
+	close(start)
+	got := []*media.Stream{}
+	timeout := time.After(netTimeout*4 + 5*time.Second)
+	for i := 0; i < n; i++ {
+		select {
+		case s := <-res:
+			got = append(got, s)
+		case <-timeout:
+			i = n
+		}
+	}
+	answers := int64(0)
+	for _, s := range got {
+		if s != nil && s.Path() == w.path {
+			answers++
+		}
+	}
+	// every pull client has registered; then a packet on every connection tells the replaced ones
+	waitFor(3*time.Second, func() bool {
+		return stats.RtspConns.GetSample().Active-w.base == int64(atomic.LoadInt32(&cam.open)) && media.Get(w.path) != nil
+	})
+	time.Sleep(5 * time.Millisecond)
+	close(cam.kick)
+	waitFor(netTimeout+3*time.Second, func() bool {
+		cn, r, k, g := w.resources()
+		return cn == 1 && r == 1 && k == 1 && g == 1
+	})
+	cn, _, k, g := w.resources()
+	live := int64(0)
+	for _, s := range got {
+		if s != nil && media.VerifStatus(s) == media.StreamOK {
+			live++
+		}
+	}
+	sc, _ := media.Count()
+	member := int64(0)
+	cur := media.Get(w.path)
+	for _, s := range got {
+		if s != nil && s == cur {
+			member = 1
+		}
+	}
+	close(cam.gate)
+	waitFor(netTimeout+3*time.Second, func() bool {
+		cn, r, k, g := w.resources()
+		return cn == 0 && r == 0 && k == 0 && g == 0 && atomic.LoadInt32(&cam.open) == 0
+	})
+	fc, fr, fk, fg := w.resources()
+	if s := media.Get(w.path); s != nil {
+		media.Unregist(s)
+	}
+	lv := int64(0)
+	if live == 1 {
+		lv = 1
+	} else if live > 1 {
+		lv = 2
+	}
+	return L(Bo(answers == int64(n)), I(lv), I(int64(sc)), I(member), I(cn), I(k), I(g), L(I(fc), I(fr), I(fk), I(fg)))
+}
+
 func init() {
 	commands["C20"] = runCase
+	commands["C20conc"] = concCase
 }
